@@ -92,11 +92,24 @@ def havoc_locations(eng, st, locs):
         elif kind == "record_keys":
             # a record dict (literal keys): the listed keys may have been added, replaced or left out - their entries become
             # unknown (reading one is unsupported), every other entry is untouched
+            st = B.to_record(st, loc[1])
             rec = st.objs[loc[1].oid]
-            if not rec.get("pure"):
-                raise Unsupported("record_keys havoc of a dict that is not a record")
             items = tuple((k, v) for k, v in rec["pyitems"] if k not in loc[2])
             items += tuple((k, VOpaque("maybe-entry")) for k in loc[2])
+            st = st.updobj(loc[1].oid, pyitems=items)
+        elif kind == "record_put":
+            # ("record_put", dict, key, cond, mk): afterwards the record has `key` exactly when cond holds, with the value built by
+            # mk(st) -> (st, value); cond None = the entry is removed / stays absent
+            st = B.to_record(st, loc[1])
+            rec = st.objs[loc[1].oid]
+            items = tuple((k, v) for k, v in rec["pyitems"] if k != loc[2])
+            if loc[3] is not None:
+                st, val = loc[4](st)
+                c = loc[3]
+                if c is True or (z3.is_expr(c) and z3.is_true(c)):
+                    items += ((loc[2], val),)
+                elif not (c is False or (z3.is_expr(c) and z3.is_false(c))):
+                    items += ((loc[2], ("maybe", c, val)),)
             st = st.updobj(loc[1].oid, pyitems=items)
         elif kind == "ghost":
             st = st.setghost(loc[1], loc[2](st))
